@@ -230,7 +230,6 @@ class StingyConfigurator(pg.All):
         super().__init__(*propositions, variable=id)
 
     @property
-    @functools.lru_cache
     def ge_polyhedron(self) -> pnd.ge_polyhedron_config:
 
         """
@@ -240,6 +239,14 @@ class StingyConfigurator(pg.All):
             -------
                 out : :class:`puan.ndarray.ge_polyhedron_config`
         """
+        # Cached on the complete definition of this configurator. Hash and equality of propositions only
+        # cover the top proposition (id, value, bounds), so two different configurators may be equal.
+        return StingyConfigurator._ge_polyhedron(self.to_b64())
+
+    @staticmethod
+    @functools.lru_cache
+    def _ge_polyhedron(definition: str) -> pnd.ge_polyhedron_config:
+        self = pg.from_b64(definition)
         ge_polyhedron = self.to_ge_polyhedron(True)
         return pnd.ge_polyhedron_config(
             ge_polyhedron, 
@@ -269,7 +276,6 @@ class StingyConfigurator(pg.All):
             )
         )
 
-    @functools.lru_cache
     def leafs(self) -> typing.List[puan.variable]:
 
         """
